@@ -1,4 +1,11 @@
 mod term;
+mod c09;
+mod c23;
+mod c21;
+mod c22;
+mod c18;
+mod c28;
+mod c10;
 mod c29;
 mod c41;
 mod c17;
@@ -41,6 +48,9 @@ fn main() {
     if args.len() >= 3 && args[1] == "C02-trace" { let d = tempfile::tempdir().unwrap(); for (i, t) in crash::protocol_traces(d.path(), &args[2]).iter().enumerate() { println!("{} {:?}", i, t); } return; }
     if args.len() >= 8 && args[1] == "C20-child" { c20::child(&args[2..]); return; }
     if args.len() >= 3 && args[1] == "C17-child" { c17::child(&args[2..]); return; }
+    if args.len() >= 4 && args[1] == "C18-child" { c18::child(&args[2..]); return; }
+    if args.len() >= 5 && args[1] == "C22-child" { c22::child(&args[2..]); return; }
+    if args.len() >= 4 && args[1] == "C23-child" { c23::child(&args[2..]); return; }
     if args.len() < 5 {
         eprintln!("usage: mvharness <property> <seed> <n> <outfile> [extra...]");
         std::process::exit(2);
@@ -85,6 +95,13 @@ fn main() {
         "C17" => c17::run(seed, n, &mut out),
         "C41" => c41::run(seed, n, _extra.first().map(|s| s.as_str()).unwrap_or("quick"), &mut out),
         "C29" => c29::run(seed, n, &mut out),
+        "C10" => c10::run(seed, n, &mut out),
+        "C28" => c28::run(seed, n, &mut out),
+        "C18" => c18::run(seed, n, _extra.first().map(|s| s.as_str()).unwrap_or("quick"), &mut out),
+        "C22" => c22::run(seed, n, _extra.first().map(|s| s.as_str()).unwrap_or("quick"), &mut out),
+        "C21" => c21::run(seed, n, _extra.first().map(|s| s.as_str()).unwrap_or("quick"), &mut out),
+        "C23" => c23::run(seed, n, &mut out),
+        "C09" => c09::run(seed, n, &mut out),
         _ => { eprintln!("unknown property {}", prop); std::process::exit(2); }
     }
 }
